@@ -175,6 +175,55 @@ func SpecSpace(quick bool, yield func(sp *Spec, family string)) {
 			&Rule{LHS: "start", RHS: &Alt{Ops: []Expr{&Cat{Ops: []Expr{str, &NT{Name: "start"}}}, a}}},
 			&Directive{Assoc: "@right", Handles: []Handle{{Rule: &Rule{LHS: "start", RHS: &Cat{Ops: []Expr{str, &NT{Name: "start"}}}}}}, Semi: true}}}, "escaped_strings")
 	}
+	// 2d. handle lists: every list of up to 3 (quick) / 4 handles - repetitions included - over terminals written as
+	// strings and as token names (one string spelled like the token name), rule handles (one naming the start rule, one
+	// with an empty body); alone, followed by a second directive, and split over two directives
+	{
+		e := &NT{Name: "e"}
+		hpool := []Handle{
+			{Term: &Str{Lexeme: "+"}}, {Term: tk}, {Term: &Str{Lexeme: "TK"}}, {Term: &Str{Lexeme: "-"}},
+			{Rule: &Rule{LHS: "e", RHS: &Cat{Ops: []Expr{e, e}}}},
+			{Rule: &Rule{LHS: "start", RHS: &Cat{Ops: []Expr{e, &Str{Lexeme: "+"}}}}},
+			{Rule: &Rule{LHS: "e"}},
+		}
+		tail := []Decl{
+			&TokenDecl{Name: "TK", Kind: DefString, Value: "t", Semi: true},
+			&Rule{LHS: "start", RHS: &Alt{Ops: []Expr{e, &Cat{Ops: []Expr{e, &Str{Lexeme: "+"}}}}}},
+			&Rule{LHS: "e", RHS: &Alt{Ops: []Expr{&Cat{Ops: []Expr{e, e}}, tk, &Str{Lexeme: "TK"}, &Str{Lexeme: "-"}}, TrailingEmpty: true}},
+		}
+		maxH := 3
+		if !quick {
+			maxH = 4
+		}
+		assocs := []string{"@left", "@right", "@none"}
+		count := 0
+		var cur []Handle
+		var rec func()
+		rec = func() {
+			if len(cur) > 0 {
+				count++
+				hs := append([]Handle{}, cur...)
+				as := assocs[count%3]
+				yield(&Spec{Name: "g", NameSemi: true, Decls: append([]Decl{&Directive{Assoc: as, Handles: hs, Semi: true}}, tail...)}, "handle_lists")
+				if len(hs) >= 2 {
+					for cut := 1; cut < len(hs); cut++ {
+						yield(&Spec{Name: "g", NameSemi: true, Decls: append([]Decl{
+							&Directive{Assoc: as, Handles: hs[:cut], Semi: true},
+							&Directive{Assoc: assocs[(count+1)%3], Handles: hs[cut:], Semi: true}}, tail...)}, "handle_lists_two_directives")
+					}
+				}
+			}
+			if len(cur) == maxH {
+				return
+			}
+			for _, h := range hpool {
+				cur = append(cur, h)
+				rec()
+				cur = cur[:len(cur)-1]
+			}
+		}
+		rec()
+	}
 	// 3. bracket nestings
 	wrap := []func(Expr) Expr{
 		func(x Expr) Expr { return &Group{x} }, func(x Expr) Expr { return &Opt{x} },
